@@ -34,6 +34,10 @@ def shapes(tier):
     for nb in range(1, nb_max + 1):
         for mode in ("idx", "arr"):
             out.append({"fn": "batch_tasks", "n_batches": nb, "mode": mode})
+    # a real (concrete-length) array argument: the batches must be its non-empty consecutive slices
+    for n in ((1, 2, 3, 4, 5) if tier == "quick" else (1, 2, 3, 4, 5, 6, 7, 8, 9)):
+        for nb in ((1, 2, 3, 4, 6) if tier == "quick" else (1, 2, 3, 4, 5, 6, 7, 8, 10, 12)):
+            out.append({"fn": "batch_tasks", "n_batches": nb, "mode": "carr", "n": n, "lo": (n + nb) % 3})
     # call history (bounded sizes): the same split requested twice with different start indices
     for nb in ((1, 2, 3) if tier == "quick" else (1, 2, 3, 4, 5)):
         out.append({"fn": "batch_tasks", "n_batches": nb, "mode": "idx" if nb % 2 else "arr", "history": True})
@@ -92,6 +96,40 @@ def run_shape(shape, tier):
         st = stack.Stack(load=("utils",))
         nb, mode = shape["n_batches"], shape["mode"]
         A1, A2 = object(), "file.hdf5"
+
+        def harness_carr():
+            n, lo = shape["n"], shape["lo"]
+            cells = [core.integer("a_%d" % i) for i in range(lo + n)]
+            arr = symnp.SymArray(symnp._obj(cells), symnp._I8)
+            return n, lo, st.utils.batch_tasks(n, nb, arr=arr, args=(A1, A2), start_idx=lo), cells
+        if mode == "carr":
+            ex = core.Explorer(max_paths=200)
+            twin = False
+            for path in ex.paths(harness_carr):
+                if path.raised is not None:
+                    res["candidates"].append({"vc": "C16.no_exception", "site": "batch_tasks", "shape": shape,
+                                              "model": {"n_tasks": shape["n"], "start_idx": shape["lo"], "n_batches": nb, "mode": "arr"}, "detail": repr(path.raised)})
+                    continue
+                n, lo, tasks, cells = path.result
+                flat, ok = [], True
+                cur = lo
+                for t in tasks:
+                    head = t[0]
+                    if not isinstance(head, symnp.SymArray) or len(head.a) == 0:
+                        ok = False
+                        break
+                    if core.is_sym(t[1]) or t[1] != cur or list(t[2:4]) != [A1, A2]:
+                        ok = False
+                    flat.extend(list(head.a))
+                    cur += len(head.a)
+                ok = ok and len(flat) == n and all(a is b for a, b in zip(flat, cells[lo:lo + n]))
+                sink.check(path, "bt.array_slices", core.SB(z3.BoolVal(bool(ok))), site="batch_tasks",
+                           describe=lambda m: {"n_tasks": shape["n"], "start_idx": shape["lo"], "n_batches": nb, "mode": "arr"})
+                r, _, _ = path.check(core.SB(z3.BoolVal(False)))
+                twin = twin or r == "sat"
+            res["twin_ok"] = twin
+            fill_explorer(res, ex)
+            return res
 
         def harness():
             n = core.integer("n_tasks")
